@@ -66,8 +66,13 @@ Cl_CompBal  == Later => Pr!CompBalRel(Pre, E, O)
 
 (* ------------------------------------ C03 ------------------------------------ *)
 Cl_Qevap     == IsState => Pr!QevapRel(E, O, E.h1, E.h2)
-Cl_SelfCool  == (Later /\ ~O.iso /\ ~O.hasProg) => Pr!SelfCoolRel(Pre, E, Pre.cp1, Pre.cp2)
-Cl_Programme == (Later /\ O.hasProg) => EqX(E.T, E.progT, E.T)
+\* the specific heat is weighted with the MASS fraction of the reported feed composition, whatever basis it is reported in
+XW(e) == IF e.xtype = "weight" THEN e.x
+         ELSE FDiv(FMul(O.M1, e.x), FAdd(FMul(O.M1, e.x), FMul(O.M2, FSub(Lit("1.0"), e.x))))      \* Composition!ToWeightP
+Cl_SelfCool  == (Later /\ ~O.iso /\ ~O.hasProg) => Pr!SelfCoolRel([Pre EXCEPT !.x = XW(Pre)], E, Pre.cp1, Pre.cp2)
+\* the programme's value is computed HERE from its type and coefficients (TemperatureProgram.tla), not taken from the library
+Cl_Programme == (Later /\ O.hasProg) => LET v == TP!Value(O.prog, E.time)
+                                         IN (FIsFinite(v) /\ FIsFinite(E.T)) => EqR(E.T, v, FAdd(FAbs(v), O.T0))
 \* reference semantics of the programme itself (DRIFT): the public program() equals the specification's formula
 Ref_ProgramValue == (IsState /\ O.hasProg) => EqR(E.progT, TP!Value(O.prog, E.time), E.progT)
 Cl_IsoConst  == (IsState /\ O.iso) => E.T = O.T0
